@@ -27,6 +27,7 @@ Section Net.
 (* nodes are numbered; node i owns the devices (i,0) .. (i, ndev i - 1) and ONE inbox: a frame a node sends reaches every other
    node, never the node itself, so devices of one node never hear each other *)
 Variable nstate : Type.                               (* state of one node *)
+Variable nodes : nat.                                 (* number of nodes on the bus: 0 .. nodes-1 *)
 Variable ndev : nat -> nat.
 Variable addr : nstate -> nat -> Z.                   (* address of device k of a node in this state *)
 Variable name : nat -> nat -> Z.                      (* NAME of device (i,k) *)
@@ -35,7 +36,7 @@ Variable react : nat -> nstate -> claim -> nstate * list claim.     (* node i ha
 Variable spont : nat -> nstate -> cause -> nstate * list claim.     (* node i acts on its own *)
 Variable allowed : nat -> nstate -> cause -> Prop.                  (* side condition on such actions (e.g. which commands are considered) *)
 
-Definition valid_dev (i k:nat) : Prop := (k < ndev i)%nat.
+Definition valid_dev (i k:nat) : Prop := (i < nodes)%nat /\ (k < ndev i)%nat.
 Definition own_name (i:nat) (n:Z) : Prop := exists k, valid_dev i k /\ n = name i k.
 Definition names_distinct : Prop := forall i k j l, valid_dev i k -> valid_dev j l -> name i k = name j l -> i = j /\ k = l.
 (* devices of one node hold pairwise different addresses (unless they have none) *)
@@ -43,7 +44,7 @@ Definition sib_distinct (i:nat) (s:nstate) : Prop :=
   forall k l, valid_dev i k -> valid_dev i l -> k <> l -> operational (addr s k) -> addr s k <> addr s l.
 
 (* the hypotheses on a node's behaviour; c is a claim carrying a NAME that is not one of the node's own *)
-Definition pre (i:nat) (s:nstate) (c:claim) : Prop := good i s /\ sib_distinct i s /\ ~ own_name i (cn c).
+Definition pre (i:nat) (s:nstate) (c:claim) : Prop := (i < nodes)%nat /\ good i s /\ sib_distinct i s /\ ~ own_name i (cn c).
 (* R1: holding x and receiving claim(x, n) with n below the own NAME: leaves x *)
 Definition R1 : Prop := forall i s c k, pre i s c -> valid_dev i k -> addr s k = cx c -> operational (cx c) -> cn c < name i k ->
   addr (fst (react i s c)) k <> cx c.
@@ -61,24 +62,25 @@ Definition R4 : Prop := forall i s c k, pre i s c -> valid_dev i k -> (addr s k 
 Definition R5 : Prop := forall i s c, pre i s c -> good i (fst (react i s c)) /\ sib_distinct i (fst (react i s c)).
 Definition react_own : Prop := forall i s c f, pre i s c -> In f (snd (react i s c)) -> own_name i (cn f).
 (* the same for the node's own actions: start, commanded address, restart, time *)
-Definition S2 : Prop := forall i s a k, good i s -> sib_distinct i s -> allowed i s a -> valid_dev i k ->
+Definition S2 : Prop := forall i s a k, (i < nodes)%nat -> good i s -> sib_distinct i s -> allowed i s a -> valid_dev i k ->
   addr (fst (spont i s a)) k <> addr s k -> operational (addr (fst (spont i s a)) k) ->
   In {| cx := addr (fst (spont i s a)) k; cn := name i k |} (snd (spont i s a)).
-Definition S5 : Prop := forall i s a, good i s -> sib_distinct i s -> allowed i s a -> good i (fst (spont i s a)) /\ sib_distinct i (fst (spont i s a)).
-Definition spont_own : Prop := forall i s a f, good i s -> sib_distinct i s -> allowed i s a -> In f (snd (spont i s a)) -> own_name i (cn f).
+Definition S5 : Prop := forall i s a, (i < nodes)%nat -> good i s -> sib_distinct i s -> allowed i s a -> good i (fst (spont i s a)) /\ sib_distinct i (fst (spont i s a)).
+Definition spont_own : Prop := forall i s a f, (i < nodes)%nat -> good i s -> sib_distinct i s -> allowed i s a -> In f (snd (spont i s a)) -> own_name i (cn f).
 Definition node_hyps : Prop := names_distinct /\ R1 /\ R2 /\ R3 /\ R4 /\ R5 /\ react_own /\ S2 /\ S5 /\ spont_own.
 
 (* global state: every node's state and its inbox; the inbox is used as a multiset - ANY pending claim may be delivered next,
    which covers every delivery order *)
 Record world := { st : nat -> nstate; inbox : nat -> list claim }.
 Definition upd {A} (f:nat -> A) (p:nat) (v:A) : nat -> A := fun q => if Nat.eqb q p then v else f q.
-(* what node p sends is appended to the inbox of every OTHER node *)
-Definition bcast (ib:nat -> list claim) (p:nat) (out:list claim) : nat -> list claim := fun q => if Nat.eqb q p then ib q else ib q ++ out.
+(* what node p sends is appended to the inbox of every OTHER node on the bus *)
+Definition bcast (ib:nat -> list claim) (p:nat) (out:list claim) : nat -> list claim :=
+  fun q => if Nat.eqb q p || negb (Nat.ltb q nodes) then ib q else ib q ++ out.
 
 Inductive step : world -> world -> Prop :=
-| Deliver i c l1 l2 w : inbox w i = l1 ++ c :: l2 ->
+| Deliver i c l1 l2 w : (i < nodes)%nat -> inbox w i = l1 ++ c :: l2 ->
     step w {| st := upd (st w) i (fst (react i (st w i) c)); inbox := bcast (upd (inbox w) i (l1 ++ l2)) i (snd (react i (st w i) c)) |}
-| Act i a w : allowed i (st w i) a ->
+| Act i a w : (i < nodes)%nat -> allowed i (st w i) a ->
     step w {| st := upd (st w) i (fst (spont i (st w i) a)); inbox := bcast (inbox w) i (snd (spont i (st w i) a)) |}.
 Inductive steps : world -> world -> Prop :=
 | steps_refl w : steps w w
@@ -100,26 +102,26 @@ End Net.
 (* --- the generic theorems (for every number of nodes and devices, every schedule) --- *)
 (* 1. every step preserves the invariant *)
 Definition pairwise_cover_preserved_stmt : Prop :=
-  forall nstate ndev addr name good react spont allowed,
-    node_hyps nstate ndev addr name good react spont allowed ->
-    forall w w', pairwise_cover nstate ndev addr name good w -> step nstate react spont allowed w w' -> pairwise_cover nstate ndev addr name good w'.
+  forall nstate nodes ndev addr name good react spont allowed,
+    node_hyps nstate nodes ndev addr name good react spont allowed ->
+    forall w w', pairwise_cover nstate nodes ndev addr name good w -> step nstate nodes react spont allowed w w' -> pairwise_cover nstate nodes ndev addr name good w'.
 (* 2. it holds initially, hence in every reachable world *)
 Definition pairwise_cover_reachable_stmt : Prop :=
-  forall nstate ndev addr name good react spont allowed,
-    node_hyps nstate ndev addr name good react spont allowed ->
-    forall w0 w, initial nstate ndev addr good w0 -> steps nstate react spont allowed w0 w -> pairwise_cover nstate ndev addr name good w.
+  forall nstate nodes ndev addr name good react spont allowed,
+    node_hyps nstate nodes ndev addr name good react spont allowed ->
+    forall w0 w, initial nstate nodes ndev addr good w0 -> steps nstate nodes react spont allowed w0 w -> pairwise_cover nstate nodes ndev addr name good w.
 (* 3. when nothing is pending any more, all devices that have an address have pairwise different ones - across all nodes *)
 Definition quiescent_unique_stmt : Prop :=
-  forall nstate ndev addr name good react spont allowed,
-    node_hyps nstate ndev addr name good react spont allowed ->
-    forall w0 w, initial nstate ndev addr good w0 -> steps nstate react spont allowed w0 w -> quiescent nstate w ->
-    forall i k j l, valid_dev ndev i k -> valid_dev ndev j l -> (i, k) <> (j, l) -> operational (addr (st nstate w i) k) ->
+  forall nstate nodes ndev addr name good react spont allowed,
+    node_hyps nstate nodes ndev addr name good react spont allowed ->
+    forall w0 w, initial nstate nodes ndev addr good w0 -> steps nstate nodes react spont allowed w0 w -> quiescent nstate w ->
+    forall i k j l, valid_dev nodes ndev i k -> valid_dev nodes ndev j l -> (i, k) <> (j, l) -> operational (addr (st nstate w i) k) ->
       addr (st nstate w i) k <> addr (st nstate w j) l.
 (* 4. a device only ever leaves an address because of a claim for exactly that address carrying a numerically lower NAME *)
 Definition lower_name_wins_stmt : Prop :=
-  forall nstate ndev addr name good react spont allowed,
-    node_hyps nstate ndev addr name good react spont allowed ->
-    forall w i c l1 l2 k, pairwise_cover nstate ndev addr name good w -> inbox nstate w i = l1 ++ c :: l2 -> valid_dev ndev i k ->
+  forall nstate nodes ndev addr name good react spont allowed,
+    node_hyps nstate nodes ndev addr name good react spont allowed ->
+    forall w i c l1 l2 k, pairwise_cover nstate nodes ndev addr name good w -> inbox nstate w i = l1 ++ c :: l2 -> valid_dev nodes ndev i k ->
       addr (fst (react i (st nstate w i) c)) k <> addr (st nstate w i) k ->
       cx c = addr (st nstate w i) k /\ operational (cx c) /\ cn c < name i k.
 
@@ -132,20 +134,19 @@ Definition lower_name_wins_stmt : Prop :=
       at most once per claim emitted by a higher NAME; hence the total number of claims ever emitted is bounded.
       (* not yet proved *)  - covered by exhaustive exploration of every schedule of the MODEL network for 2..4 participants
       (tools/p_C03.py, `EXPL` lines of ocaml/drv_NET.ml), which is a search, not a proof. *)
-Definition deliveries nstate react (w w':world nstate) : Prop :=
-  exists i c l1 l2, inbox nstate w i = l1 ++ c :: l2 /\
-    w' = {| st := upd (st nstate w) i (fst (react i (st nstate w i) c)); inbox := bcast (upd (inbox nstate w) i (l1 ++ l2)) i (snd (react i (st nstate w i) c)) |}.
+Definition deliveries nstate nodes react (w w':world nstate) : Prop :=
+  exists i c l1 l2, (i < nodes)%nat /\ inbox nstate w i = l1 ++ c :: l2 /\
+    w' = {| st := upd (st nstate w) i (fst (react i (st nstate w i) c)); inbox := bcast nodes (upd (inbox nstate w) i (l1 ++ l2)) i (snd (react i (st nstate w i) c)) |}.
 Definition converges_stmt : Prop :=
-  forall nstate ndev addr name good react spont allowed (nodes:nat) (left:nstate -> nat -> nat),
-    node_hyps nstate ndev addr name good react spont allowed ->
-    (forall i s c, pre nstate ndev addr name good i s c ->
+  forall nstate nodes ndev addr name good react spont allowed (left:nstate -> nat -> nat),
+    node_hyps nstate nodes ndev addr name good react spont allowed ->
+    (forall i s c, pre nstate nodes ndev addr name good i s c ->
        (length (snd (react i s c)) <= 1)%nat /\
-       (snd (react i s c) <> [] -> exists k, valid_dev ndev i k /\ addr s k = cx c /\ operational (cx c)) /\
-       (forall k, valid_dev ndev i k -> (addr (fst (react i s c)) k = addr s k /\ left (fst (react i s c)) k = left s k) \/
+       (snd (react i s c) <> [] -> exists k, valid_dev nodes ndev i k /\ addr s k = cx c /\ operational (cx c)) /\
+       (forall k, valid_dev nodes ndev i k -> (addr (fst (react i s c)) k = addr s k /\ left (fst (react i s c)) k = left s k) \/
                                         (left (fst (react i s c)) k < left s k)%nat)) ->
-    forall w0 w, initial nstate ndev addr good w0 -> steps nstate react spont allowed w0 w ->
-      (forall i, (nodes <= i)%nat -> ndev i = O /\ inbox nstate w i = []) ->
-      Acc (fun w2 w1 => deliveries nstate react w1 w2) w.
+    forall w0 w, initial nstate nodes ndev addr good w0 -> steps nstate nodes react spont allowed w0 w ->
+      Acc (fun w2 w1 => deliveries nstate nodes react w1 w2) w.
 
 (* ======================================================================================================================= *)
 (* Part 2: the library (frozen model)                                                                                      *)
@@ -187,13 +188,15 @@ Definition sibling_holds (r:rnode) (k:nat) (y:Z) : Prop := exists l, (l < lib_nd
 (* what a claim(x, NAME n) does to an open node: HandleISOAddressClaim on source x and the 8 payload bytes *)
 Definition on_claim (r:rnode) (x n:Z) : rnode * list event := handle_claim r x (name_bytes n).
 Definition claim_args (r:rnode) (x n:Z) (k:nat) : Prop := lib_good r /\ lib_open r /\ (k < lib_ndev r)%nat /\ 0 <= n < 2^64.
+(* the claim carries a NAME that is not one of the node's own (the property's premise: NAMEs on the bus are pairwise distinct) *)
+Definition foreign_name (r:rnode) (n:Z) : Prop := forall l, (l < lib_ndev r)%nat -> lib_name r l <> n.
 
 (* lib_R1: the device holding x leaves x when the claimant's NAME is lower *)
 Definition lib_R1_stmt : Prop := forall r x n k, claim_args r x n k -> lib_src r k = x -> operational x -> n < lib_name r k ->
   lib_src (fst (on_claim r x n)) k <> x.
 (* lib_R2: whenever a device's address changes to y <= 251, claim(y, its NAME) is handed to the driver and accepted, i.e. it is on the wire
    (PGN 60928 passes SendMsg's gate even while the claim window of the device is open) *)
-Definition lib_R2_stmt : Prop := forall r x n k, claim_args r x n k ->
+Definition lib_R2_stmt : Prop := forall r x n k, claim_args r x n k -> foreign_name r n ->
   lib_src (fst (on_claim r x n)) k <> lib_src r k -> operational (lib_src (fst (on_claim r x n)) k) ->
   In {| cx := lib_src (fst (on_claim r x n)) k; cn := lib_name r k |} (ev_claims (snd (on_claim r x n))).
 (* lib_R3: the device holding x keeps it against a higher NAME and answers with exactly one frame: its own claim for x *)
@@ -201,13 +204,12 @@ Definition lib_R3_stmt : Prop := forall r x n k, claim_args r x n k -> lib_src r
   lib_src (fst (on_claim r x n)) k = x /\ snd (on_claim r x n) = [claim_event x (lib_name r k)] /\
   In {| cx := x; cn := lib_name r k |} (ev_claims (snd (on_claim r x n))).
 (* lib_R4: claims for other addresses, from the null address or from addresses above 251 do not move a device *)
-Definition lib_R4_stmt : Prop := forall r x n k, claim_args r x n k -> (lib_src r k <> x \/ ~ operational x) ->
+Definition lib_R4_stmt : Prop := forall r x n k, claim_args r x n k -> foreign_name r n -> (lib_src r k <> x \/ ~ operational x) ->
   lib_src (fst (on_claim r x n)) k = lib_src r k.
 (* lib_R5 (arbitration): after a claim carrying a foreign NAME the node is still well formed - in particular a device that had to move
    did not land on a sibling's address (GetNextAddress skips them) -, still open, with the same devices and NAMEs; everything it
    sent are claims in its own NAMEs *)
-Definition lib_R5_arbitration_stmt : Prop := forall r x n, lib_good r -> lib_open r -> 0 <= n < 2^64 -> 0 <= x < 256 ->
-  (forall k, (k < lib_ndev r)%nat -> lib_name r k <> n) ->
+Definition lib_R5_arbitration_stmt : Prop := forall r x n, lib_good r -> lib_open r -> 0 <= n < 2^64 -> foreign_name r n ->
   let r' := fst (on_claim r x n) in
   lib_good r' /\ lib_open r' /\ lib_ndev r' = lib_ndev r /\ (forall k, lib_name r' k = lib_name r k) /\
   (forall f, In f (ev_claims (snd (on_claim r x n))) -> exists k, (k < lib_ndev r)%nat /\ cn f = lib_name r k).
@@ -237,10 +239,13 @@ Definition exhausted_run_stmt : Prop :=
 (* every way a device's own address changes raises the address-changed indication: a claim (lost arbitration, exhausted search),
    a commanded address, Open()/Restart() (restart of a device at the null address) *)
 Definition changes_flagged (r r':rnode) : Prop := (exists k, lib_src r' k <> lib_src r k) -> lib_flag r' = true.
+(* the address data of every device make sense (an address 0..251 with a search end 0..251, or the null address) *)
+Definition addr_data_ok (r:rnode) : Prop :=
+  forall k, (k < lib_ndev r)%nat -> (0 <= lib_src r k <= 251 /\ 0 <= d_claim_end (lib_dev r k) <= 251) \/ lib_src r k = 254.
 Definition address_changed_flag_stmt : Prop :=
-  (forall r x data, changes_flagged r (fst (handle_claim r x data))) /\
+  (forall r x data, addr_data_ok r -> changes_flagged r (fst (handle_claim r x data))) /\
   (forall r s, changes_flagged r (fst (handle_commanded r s))) /\
-  (forall r, changes_flagged r (fst (start_claim_all (length (n_devs (rn r))) r 0))).
+  (forall r, addr_data_ok r -> changes_flagged r (fst (start_claim_all (length (n_devs (rn r))) r 0))).
 
 (* the source address in the identifier of everything SendMsg builds for device i is the address the library reports for device i *)
 Definition tx_source_is_reported_stmt : Prop :=
